@@ -429,6 +429,62 @@ def opLsml : P String := do
   let G := (lsmlGradient M P Minv quads).store
   return "ok " ++ renderArr (#[lsmlLoss M P logdet quads] ++ (Mat.ofStore G).toArray)
 
+/-- C12: the whole LSML solver loop (`lsmlLoop`, the function the descent theorems are about) replayed with the
+implementation's own `eigh` results as oracle: call `10·it + j` is the decomposition of the `j`-th candidate of iteration
+`it`.  Returns `n_iter_`, the final matrix, the final loss and the largest deviation between a recorded decomposition
+and the candidate `M − step·∇f` the model forms (the contract of the external eigen-solver on this run). -/
+def opLsmlRun : P String := do
+  let d ← nat; let nq ← nat
+  let M0 ← readStore Float d d; let Ps ← readStore Float d d
+  let vab ← readVecs Float nq d; let vcd ← readVecs Float nq d
+  let w ← arr Float nq
+  let tol ← scalar Float; let maxIter ← nat
+  let steps ← arr Float 10
+  let ncalls ← nat
+  let rec_ ← arr Float (ncalls * (d + d * d))
+  finish
+  let P := Mat.ofStore Ps
+  let quads := (vab.zip (vcd.zip w.toList))
+  let wOf (c : Nat) : Vec Float d := fun i => rec_.getD (c * (d + d * d) + i.val) 0
+  let vOf (c : Nat) : Mat Float d d := fun a b => rec_.getD (c * (d + d * d) + d + a.val * d + b.val) 0
+  let lossOf (Ms : Vector (Vector Float d) d) : Float :=
+    let (_, logdet) := gaussJordan d (Ms.toArray.map (·.toArray))
+    lsmlLoss (Mat.ofStore Ms) P logdet quads
+  let gradOf (Ms : Vector (Vector Float d) d) : Vector (Vector Float d) d :=
+    let (inv, _) := gaussJordan d (Ms.toArray.map (·.toArray))
+    let Minv : Mat Float d d := fun a b => (inv.getD a.val #[]).getD b.val 0
+    (lsmlGradient (Mat.ofStore Ms) P Minv quads).store
+  let normOf (G : Vector (Vector Float d) d) : Float := Float.sqrt (frob (Mat.ofStore G) (Mat.ofStore G))
+  -- state = (matrix, number of completed iterations)
+  let loss : (Vector (Vector Float d) d × Nat) → Float := fun s => lossOf s.1
+  let gradNorm : (Vector (Vector Float d) d × Nat) → Float := fun s => normOf (gradOf s.1)
+  let cands : (Vector (Vector Float d) d × Nat) → List (Vector (Vector Float d) d × Nat) := fun s =>
+    (List.range 10).map fun j => ((lsmlFloor (vOf (10 * s.2 + j)) (wOf (10 * s.2 + j))).store, s.2 + 1)
+  let s0 : LsmlState (Vector (Vector Float d) d × Nat) Float := { M := (M0, 0), sBest := lossOf M0 }
+  let (sf, nIter) := lsmlLoop loss gradNorm cands tol maxIter 0 s0
+  -- contract of the recorded decompositions along the model's own trajectory
+  let rec devAlong (fuel : Nat) (s : LsmlState (Vector (Vector Float d) d × Nat) Float) (acc : Float) : Float :=
+    match fuel with
+    | 0 => acc
+    | fuel+1 =>
+      if s.M.2 * 10 + 10 > ncalls then acc else
+      let G := gradOf s.M.1
+      let gn := normOf G
+      if gn < tol then acc else
+      let acc' := (List.range 10).foldl (fun a j =>
+        let st := steps.getD j 0 / gn
+        let c := 10 * s.M.2 + j
+        let recon := reconstruct (vOf c) (wOf c)
+        (List.finRange d).foldl (fun a2 x => (List.finRange d).foldl (fun a3 y =>
+          let want := s.M.1[x][y] - st * G[x][y]
+          let dv := Float.abs (recon x y - want)
+          if a3 < dv then dv else a3) a2) a) acc
+      match lsmlScan loss (cands s.M) s.sBest none with
+      | (_, none) => acc'
+      | (sb, some m) => devAlong fuel { M := m, sBest := sb } acc'
+  let dev := devAlong maxIter s0 0.0
+  return s!"ok {nIter} " ++ renderArr (#[sf.sBest, dev] ++ (Mat.ofStore sf.M.1).toArray)
+
 /-- C10: documented objectives of NCA / MLKR / LMNN (Float twin) -/
 def opObjective (op : String) : P String := do
   let k ← nat; let d ← nat; let n ← nat
@@ -556,6 +612,7 @@ def dispatch : P String := do
   | "cov" | "rca_inner" | "lfda_scatter" => opClosedForm op
   | "wiring" => opWiring
   | "check_input" => opCheckInput
+  | "lsml_run" => opLsmlRun
   | "calib" => opCalib
   | "calib_code" => opCalibCode
   | "calib_rate_code" => opCalibRateCode
